@@ -29,6 +29,10 @@ def make_dims(fd, rng, ndim=None, allow_untyped_int=True, need_multi=True):
         spec = []
         for i in idx:
             l, n, items, dt = pool[i]
+            if l == "t" and rng.random() < 0.3:
+                # other calendars: years at the very ends of what counts as a calendar year; integer labels whose order as text differs
+                # from their order as numbers
+                items = [[1700, 1850, 2000, 2150, 2300], [5, 10, 20, 900, 1000]][int(rng.integers(0, 2))]
             if len(items) > 1:
                 k = int(rng.integers(2, len(items) + 1))
                 items = list(items[:k]) if rng.random() < 0.5 else [items[j] for j in sorted(rng.choice(len(items), size=k, replace=False).tolist())]
@@ -81,7 +85,7 @@ def long_records(spec, values):
 HEADER_STYLES = ["names", "letters", "mixed", "anonymous"]
 
 
-def render(spec, recs, rng, layout="long", wide_dim=None, header="names", in_index="none", vname="value", omit_single=False,
+def render(spec, recs, rng, layout="long", wide_dim=None, header="names", in_index="none", vname="value", omit_single=False, unnamed_year_index=False,
            perm_rows=True, perm_cols=True, value_pos=None):
     """Build a DataFrame.  Returns (df, info) where info describes the structure (for finding predicates)."""
     k = len(spec)
@@ -137,6 +141,15 @@ def render(spec, recs, rng, layout="long", wide_dim=None, header="names", in_ind
         else:
             n = int(rng.integers(1, len(dim_cols_present) + 1))
             df = df.set_index([dim_cols_present[j] for j in sorted(rng.choice(len(dim_cols_present), size=n, replace=False).tolist())])
+    if unnamed_year_index and layout == "long" and in_index == "none" and header in ("names", "letters"):
+        # a dimension of calendar years held in the frame's own, UNNAMED index (as after df.set_index(years).rename_axis(None)): it is
+        # identified through its items alone
+        yc = [c for c in dim_cols_present if info["dimcol_of"][c][3] is int and len(info["dimcol_of"][c][2]) > 1 and all(1700 <= q <= 2300 for q in info["dimcol_of"][c][2])]
+        if yc:
+            df = df.set_index(yc[0])
+            df.index = df.index.astype(np.int64)
+            df.index.name = None
+            info["unnamed_year_index"] = yc[0]
     info["columns"] = [str(c) for c in (list(df.index.names) if df.index.names != [None] else []) + list(df.columns)]
     # structural facts for finding predicates
     if header == "anonymous" and layout == "long":
